@@ -1,6 +1,7 @@
 import IoraModel.Lemmas.HttpClient
 import IoraModel.Lemmas.HttpServer
 import IoraModel.Lemmas.HttpExact
+import IoraModel.Lemmas.HttpServerExact
 /-!
 # C15 — HTTP/1.1 message framing is exact, segmentation-independent and bounded
 
@@ -125,7 +126,100 @@ theorem F3_frame_never_grows (method : Bytes) (cap : Nat) (st st' : St) (o : Out
     (h : frameResponse method cap st = (st', o)) : st'.data.length ≤ st.data.length :=
   FR_data_le method cap st st' o h
 
+/-- **F4a (Content-Length is numeric or rejected).** A Content-Length value is accepted only if EVERY comma-separated element,
+OWS-trimmed, is a non-empty token of decimal digits with a value below 2^64, and all elements denote the same number: no sign,
+no inner white space, no trailing junk, no overflow, no differing duplicates. -/
+theorem F4_content_length_sound (v : Bytes) (n : Nat) (h : parseContentLength v = .ok n) :
+    ∀ e ∈ splitOn 44 v, parseFullUInt 10 (trim e) = some n ∧ trim e ≠ [] ∧
+      (∀ c ∈ trim e, (digitVal 10 c).isSome = true) ∧ n < 2 ^ 64 := by
+  intro e he
+  have hp := (parseCLElems_sound _ none n h).1 e he
+  exact ⟨hp, parseFullUInt_sound 10 _ n hp⟩
+
+/-- **F4b (the framing decision never guesses).** `determineFraming` answers "Content-Length framing with length `n`" only if
+there is NO Transfer-Encoding field, the Content-Length value is valid (F4a) with value `n`, and `n` is within the cap. -/
+theorem F4_framing_sound (method : Bytes) (resp : Resp) (cap n : Nat)
+    (h : determineFraming method resp cap = .ok { mode := .contentLength, contentLength := n }) :
+    hdrFind resp.headers (ascii "Transfer-Encoding") = none ∧
+    ∃ cl, hdrFind resp.headers (ascii "Content-Length") = some cl ∧ parseContentLength cl = .ok n ∧ n ≤ cap := by
+  unfold determineFraming at h
+  split at h
+  · cases h
+  · split at h
+    · cases h
+    · split at h
+      · cases h
+      · split at h <;> cases h
+      · rename_i cl hte hcl
+        cases hp : parseContentLength cl with
+        | error k => rw [hp] at h; cases h
+        | ok m =>
+          rw [hp] at h
+          simp only at h
+          split at h
+          · cases h
+          · rename_i hle
+            cases h
+            exact ⟨hte, cl, hcl, hp, by omega⟩
+      · cases h
+
+/-- **F4c (Content-Length together with Transfer-Encoding is rejected)** whenever the response can have a body. -/
+theorem F4_cl_and_te_rejected (method : Bytes) (resp : Resp) (cap : Nat) (te cl : Bytes)
+    (hm : method ≠ ascii "CONNECT")
+    (hb : ¬ (method = ascii "HEAD" ∨ Gen.Http.clientNoBodyStatuses.contains resp.status = true ∨ isInterim resp.status = true))
+    (h1 : hdrFind resp.headers (ascii "Transfer-Encoding") = some te)
+    (h2 : hdrFind resp.headers (ascii "Content-Length") = some cl) :
+    determineFraming method resp cap = .error .clAndTe := by
+  unfold determineFraming
+  simp only [hm, ↓reduceIte, hb, h1, h2]
+
+/-- **F4d (chunk sizes).** A chunk-size line is accepted only with a size within the cap (and below 2^64: an overflowing
+hex token is malformed); in particular `ffffffffffffffec` is malformed under every cap below 2^64 - 20. -/
+theorem F4_chunk_size_sound (buf : Bytes) (cap pos n ds : Nat) (h : sizeLine buf cap pos = .ok n ds) :
+    n ≤ cap ∧ n < 2 ^ 64 :=
+  sizeLine_sound buf cap pos n ds h
+
+/-- witnesses for the rejected chunk-size shapes (cap 1 MiB): overflow, over-cap, sign, `0x`, bare LF, junk, BWS before CRLF -/
+example : sizeLine (ascii "10000000000000000\r\nzz") 1048576 0 = .bad ∧ sizeLine (ascii "ffffffffffffffec\r\nzz") 1048576 0 = .bad ∧
+    sizeLine (ascii "-3\r\nabc") 1048576 0 = .bad ∧ sizeLine (ascii "0x3\r\nabc") 1048576 0 = .bad ∧
+    sizeLine (ascii "3\nabc") 1048576 0 = .bad ∧ sizeLine (ascii "3x\r\nabc") 1048576 0 = .bad ∧
+    sizeLine (ascii "3 \r\nabc") 1048576 0 = .bad ∧ sizeLine (ascii "3 ;a\r\nabc") 1048576 0 = .ok 3 6 := by decide
+
 /-! ## Server (`handleIncomingData` as repaired by F25/F26/F27) -/
+
+open Iora.Http.Srv in
+/-- **S1/S4/S5 (exact extraction).** For every well-formed request of the reference syntax - any colon-free request line,
+arbitrary field lines around the framing field, body absent, framed by `Content-Length`, or CHUNKED with chunk extensions
+and a trailer section - followed by arbitrary bytes, the extractor cuts exactly at the end of the message and hands the
+request parser the header section followed by the DECODED body (chunk framing, extensions and trailers removed). -/
+theorem S1_extract_exact (r : ReqSpec) (h : r.OK) (rest : Bytes) :
+    extractOne (r.render ++ rest) = .request r.raw r.render.length :=
+  extract_exact r.line r.before r.after r.body h.1 h.2 rest
+
+open Iora.Http.Srv in
+/-- **S1 (pipelines, any segmentation).** A pipeline of well-formed requests (at most `MAX_BUFFER_SIZE` bytes in total), cut
+into network reads in ANY way, makes `handleIncomingData` dispatch exactly those requests, in order, each as header
+section + decoded body, and leaves the session open with an empty buffer. -/
+theorem S1_pipeline_exact (rs : List ReqSpec) (hall : ∀ r ∈ rs, r.OK) (ss : List Bytes)
+    (hss : ss.flatten = renderAll rs) (hb : (renderAll rs).length ≤ Gen.Http.serverMaxBufferSize) :
+    (srvFeed {} ss).1 = rs.map (fun r => dispatch r.raw) ∧ (srvFeed {} ss).2 = { buffer := [], alive := true } :=
+  pipeline_any_segmentation rs hall ss hss hb
+
+open Iora.Http.Srv Iora.Http.Spec in
+/-- non-vacuity: `POST /x HTTP/1.1`, `Host: a`, `Transfer-Encoding: chunked`, chunk `3 abc`, last chunk with a trailer -/
+example : ReqWF (ascii "POST /x HTTP/1.1") [{ name := ascii "Host", value := ascii "a" }] []
+    (.chunked (ascii "chunked") [{ tok := ascii "3", data := ascii "abc" }] { trailers := [ascii "X-T: 1"] }) where
+  line_ne := by decide
+  line_ok := by decide
+  before_ok := by
+    intro f hf; simp only [List.mem_singleton] at hf; subst hf
+    exact ⟨⟨by decide, by decide, by decide, by decide, by decide, by decide⟩, by decide, by decide⟩
+  after_ok := by intro f hf; cases hf
+  body_ok := by
+    refine ⟨by decide, by decide, by decide, ?_, ⟨by decide, Or.inl rfl, ?_⟩⟩
+    · intro c hc; simp only [List.mem_singleton] at hc; subst hc
+      exact ⟨by decide, by decide, by decide, by decide, Or.inl rfl⟩
+    · intro t ht; simp only [List.mem_singleton] at ht; subst ht; exact ⟨by decide, by decide⟩
 
 open Iora.Http.Srv in
 /-- **S2a (the extractor is a stable frame parser).** For ARBITRARY buffers: once `extractOne` has answered with a request
